@@ -23,6 +23,18 @@ class DummyQueue:
     delayed: dict[datetime, list[Message]] = field(default_factory=dict)
     dead: list[Message] = field(default_factory=list)
     processing: set[Message] = field(default_factory=set)
+    # where a message in `processing` was taken from: id -> (category, key in `delayed`)
+    taken_from: dict[str, tuple[str, datetime | None]] = field(default_factory=dict)
+
+    def put_back(self, msg: Message) -> None:
+        """Return the message to the category it was taken from."""
+        category, delayed_until = self.taken_from.pop(msg.key.id_, ("NORMAL", None))
+        if category == "DEAD":
+            self.dead.insert(0, msg)
+        elif category == "DELAYED" and delayed_until is not None:
+            self.delayed.setdefault(delayed_until, []).insert(0, msg)
+        else:
+            self.simple.put_nowait(msg)
 
 
 def wait_until(params: ParametersT | None = None) -> datetime | None:
